@@ -612,7 +612,11 @@ func (s unicodeString) index(substr String, start int) int {
 	} else {
 		ss = a.utf16()
 	}
-	idx := utf16Index(s[min(1+start, len(s)):], ss)
+	if start > len(s)-1 {
+		// past the end: not even the empty string is found there (as in asciiString.index)
+		return -1
+	}
+	idx := utf16Index(s[1+start:], ss)
 	if idx != -1 {
 		return idx + start
 	}
